@@ -91,8 +91,10 @@ def loop_paths(ctx: Ctx, engine: ClassInfo, exc_edges="try", base_exc=False) -> 
                                   for kw in a.keywords) or (a.args and isinstance(a.args[0], ast.Constant) and a.args[0].value is False)
                 s = LSym("ACQ", e, {"op": "nonblocking" if nonblocking else "blocking", "call": show(a)})
                 acq_ids[f"$c{e.idx}"] = e
-            elif lop == "release":
+            elif lop in ("release", "__exit__"):
                 s = LSym("REL", e)
+            elif lop == "__enter__":
+                s = LSym("ACQ", e, {"op": "blocking", "call": "with " + show(e.term.func.value)})
             elif lop is not None:
                 s = LSym("LOCKOP", e, {"op": lop})
             elif qop in ("popleft", "pop"):
@@ -105,8 +107,6 @@ def loop_paths(ctx: Ctx, engine: ClassInfo, exc_edges="try", base_exc=False) -> 
                 v = expand(e.x["value"], evs)
                 fresh = isinstance(v, ast.Call) and show(v.func) in ("deque", "collections.deque") and not v.args
                 s = LSym("CLEAR" if fresh else "QOP", e, {"op": "rebind", "value": show(v)})
-            elif e.kind == "with" and k.is_self_attr(expand(e.term, evs), k.lock_attr):
-                s = LSym("ACQ", e, {"op": "blocking", "call": "with " + show(e.term)})
             elif k.calls_method(e, "_trigger"):
                 s = LSym("TRIG", e, {"arg": show(e.term.args[0]) if e.term.args else "", "id": f"$c{e.idx}",
                                      "awaited": e.x.get("awaited"), "in_try": e.x.get("try")})
